@@ -26,6 +26,16 @@ INVALID = "invalid"      # oracle marker: the statistics of this register must r
 ENABLE_NARROW_CONTENT = True
 ENABLE_INVALID_HISTORY = True
 NARROW_LARGE_DTYPES = ["float16", "float32", "int16"]      # the large cases take them in turn (by case index)
+# the stream "an EMPTY / TEMPLATE histogram obtained from a filled one, then used" (gen_template): switch for the whole stream, the
+# ways of obtaining the empty histogram it draws from (a way can be taken out here without touching the rest)
+ENABLE_TEMPLATE = True
+TEMPLATE_WAYS = ["copy_empty", "copy_empty", "copy_empty", "copy_empty", "mul0", "sub_self", "new_on_binning", "new_on_binning",
+                 "slice_empty", "coll_create"]
+# `h * 0` keeps min / max / median of the data of `h` beside weight = sum = sum2 = 0 (and whatever is filled in afterwards has
+# extremes that include the old data).  0 is not a positive rescaling and the property text does not say that the product is
+# "empty": only weight / sum / sum2 / mean() / variance() are compared on such registers unless this is switched on.
+TEMPLATE_MUL0_EXTREMES = False
+EITHER = "empty-or-invalid"     # oracle marker: an empty selection (h[k:k]) may read as invalid or as empty, never as numbers
 READINGS = ("weight", "sum", "sum2", "min", "max", "median", "mean()", "variance()", "std()")
 TRANSFORMED = ("RadialHistogram", "AzimuthalHistogram")
 
@@ -126,9 +136,20 @@ class C14(Hist1Prop):
             "fill_n into an empty histogram of that dtype in one chunk, in chunks, value by value, then a sum, a copy, a rescaling: "
             "weight / sum / sum2 are the exact sums of the (value, weight) pairs (1e-12 relative where the weights are tenths), min / "
             "max exact, whatever the content type and the chunking; every third of these has 2150..3100 values, more than 2048 of them "
-            "in one bin (float16, float32, int16 in turn; oracle only, observed at the end). non-trivial = at least 2 distinct values "
+            "in one bin (float16, float32, int16 in turn; oracle only, observed at the end); one case in twelve (stream:template) "
+            "obtains an EMPTY / template histogram from a filled Histogram1D / RadialHistogram / AzimuthalHistogram whose statistics are "
+            "valid or invalid -- copy(include_frequencies=False), h * 0 / 0 * h / h / inf, h - h, type(h)(h.binning) / "
+            "type(h)(h.binning.copy()), the empty selection h[k:k], HistogramCollection(h).create(...) -- reads its statistics at once "
+            "(nothing entered: weight = sum = sum2 = 0, min / max empty, median / mean() / variance() / std() NaN; h - h: all NaN; "
+            "h[k:k]: all NaN or empty), then fills it (fill, fill_n), adds data histograms (+=), adds the ORIGINAL in both orders, copies "
+            "(with / without contents), rescales: after every step the statistics of every register are exactly those of the values "
+            "entered into THAT object (1e-12 for the radii / azimuths numpy computes), the source keeps its own, a plain copy reads the "
+            "same as its source in all nine numbers (the Histogram1D cases without create / inf go through the model too); the random "
+            "histories and the refused_mid histories also take copy(include_frequencies=False) at random positions and go on with it. "
+            "non-trivial = at least 2 distinct values "
             "entered (refused_mid: a planned refusal really refused, with data entered before and after it; invalid_history: "
-            "something accepted was entered into / added to a histogram without statistics); "
+            "something accepted was entered into / added to a histogram without statistics; template: the template was obtained and "
+            "something entered into / added to it afterwards); "
             "distinct = hash of the op list")
     FIELDS = {"stats", "freq"}
 
@@ -162,8 +183,17 @@ class C14(Hist1Prop):
             v0 = []
         cur, nreg = 0, 1
         for _ in range(rng.randint(2, 8)):
-            kind = rng.choice(["fill", "fill", "fill", "fill_n", "imul", "idiv", "mul", "div", "copy", "add", "normalize"])
-            if kind == "fill":
+            kind = rng.choice(["fill", "fill", "fill", "fill_n", "imul", "idiv", "mul", "div", "copy", "add", "normalize", "copy_empty"])
+            if kind == "copy_empty":
+                # an EMPTY copy (a template over the same bins) taken at this point of the history: nothing of the source in it;
+                # the history goes on on the template (filled at once) or on the source (the template is read after every step)
+                ops.append({"op": "copy", "h": cur, "out": nreg, "with_freq": False})
+                if rng.random() < 0.6:
+                    cur = nreg
+                    ops.append({"op": "fill", "h": cur, "v": rs(inrange_values(rng, pairs, 1)[0]), "w": "1", "wk": "pyint",
+                                "default_w": rng.random() < 0.5})
+                nreg += 1
+            elif kind == "fill":
                 w = rng.choice([1, 1, 2, 0.5, 3])
                 ops.append({"op": "fill", "h": cur, "v": rs(inrange_values(rng, pairs, 1)[0]), "w": rs(w),
                             "wk": "pyint" if isinstance(w, int) else "pyfloat", "default_w": w == 1 and rng.random() < 0.5})
@@ -186,7 +216,8 @@ class C14(Hist1Prop):
                 ops.append({"op": "add", "a": cur, "b": nreg, "out": nreg + 1}); cur = nreg + 1; nreg += 2
             else:
                 ops.append({"op": "normalize", "h": cur, "inplace": True, "maybe_refused": True})
-        return {"kind": "hist1", "ops": ops, "tags": ["mixed_history"], "mixed": True, "tolerance": True}
+        tags = ["mixed_history"] + (["kind:mixed_copy_empty"] if any(o.get("with_freq") is False for o in ops) else [])
+        return {"kind": "hist1", "ops": ops, "tags": tags, "mixed": True, "tolerance": True}
 
     def oracle_mixed(self, case, io):
         """track, per register, the raw (value, weight) pairs with the weights rescaled; compare after every step"""
@@ -213,7 +244,7 @@ class C14(Hist1Prop):
                 c = Fraction(op["c"]) if name in ("imul", "mul") else 1 / Fraction(op["c"])
                 data[op.get("out", op["h"])] = [(v, w * c) for v, w in data[op["h"]]]
             elif name == "copy":
-                data[op["out"]] = list(data[op["h"]])
+                data[op["out"]] = list(data[op["h"]]) if op.get("with_freq", True) else []
             elif name == "add":
                 data[op["out"]] = data[op["a"]] + data[op["b"]]
             elif name == "normalize":
@@ -248,6 +279,9 @@ class C14(Hist1Prop):
                         fails.append(f"mean_history: register {r} after step {k} ({name}): mean() = {st['mean']}, weighted mean of the data = {mean}")
                     if st["variance"] is None or abs(Fraction(st["variance"]) - var) > abs(var) * Fraction(1, 10**9) + Fraction(1, 10**9):
                         fails.append(f"variance_history: register {r} after step {k} ({name}): variance() = {st['variance']}, population variance = {var}")
+                elif not pairs and (st["mean"] is not None or st["variance"] is not None):
+                    fails.append(f"mean_empty_history: register {r} after step {k} ({name}): nothing was entered into it, but mean() = "
+                                 f"{st['mean']}, variance() = {st['variance']}")
             if fails:
                 break
         return fails[:5]
@@ -320,7 +354,7 @@ class C14(Hist1Prop):
 
         def accepted():
             nonlocal cur
-            kinds = ["fill", "fill", "fill_n", "fill_n", "iadd_same", "add_same", "scale", "copy"]
+            kinds = ["fill", "fill", "fill_n", "fill_n", "iadd_same", "add_same", "scale", "copy", "copy_empty"]
             if adaptive:
                 kinds += ["iadd_grid", "iadd_grid", "add_grid"]
             elif b["t"] == "static":
@@ -351,9 +385,9 @@ class C14(Hist1Prop):
                 c = rng.choice([2, 4, 0.5, 0.25])
                 ops.append({"op": rng.choice(["imul", "idiv"]), "h": cur, "c": rs(c),
                             "k": rng.choice(["pyint", "int64"]) if isinstance(c, int) else rng.choice(["pyfloat", "float64"])})
-            elif kind == "copy":
+            elif kind in ("copy", "copy_empty"):
                 out = nreg[0]; nreg[0] += 1
-                ops.append({"op": "copy", "h": cur, "out": out})
+                ops.append({"op": "copy", "h": cur, "out": out, **({"with_freq": False} if kind == "copy_empty" else {})})
                 if rng.random() < 0.5:
                     cur = out
             else:           # the histogram joins a collection of histograms over the same bins: nothing of it may change
@@ -568,6 +602,19 @@ class C14(Hist1Prop):
                 ws = None if op.get("ws") is None else impl1.arr(op["ws"], np.dtype(op.get("wkind") or "float64"))
                 h.fill_n(self._points(op["ps"]), ws)
                 return "ok"
+            if name == "new_on_binning":    # type(h)(h.binning) / type(h)(h.binning.copy()): a new histogram over the bins of h
+                h = s.get(op["h"])
+                s.set(op["out"], type(h)(h.binning.copy() if op.get("copy") else h.binning))
+                return "ok"
+            if name == "coll_create":       # HistogramCollection(h).create(name, values, weights=...): a member over the bins of h
+                from physt.histogram_collection import HistogramCollection
+                col = HistogramCollection(s.get(op["h"]))
+                ws = None if op.get("ws") is None else impl1.arr(op["ws"], np.dtype(op.get("wkind") or "float64"))
+                s.set(op["out"], col.create("created", impl1.arr(op["vs"]), weights=ws))
+                return "ok"
+            if name == "mul0":              # h / inf: every content times 0
+                s.set(op["out"], s.get(op["h"]) / float("inf"))
+                return "ok"
             if name == "fill_chunks":       # the data (and weights) of the construct op `data_of`, entered in chunks
                 src = case["ops"][op["data_of"]]
                 vs = impl1.arr(src["data"])
@@ -583,7 +630,8 @@ class C14(Hist1Prop):
             log.append(f"{name}: {type(e).__name__}: {e}"[:200])
             return impl1.REFUSED
 
-    LOCAL = ("coll_add", "construct_t", "empty_t", "nd_proj", "reload", "array_arith", "lshift", "fill_pt", "fill_n_pts", "fill_chunks")
+    LOCAL = ("coll_add", "construct_t", "empty_t", "nd_proj", "reload", "array_arith", "lshift", "fill_pt", "fill_n_pts", "fill_chunks",
+             "new_on_binning", "coll_create", "mul0")
 
     def _run(self, case, observe=True):
         """every C14 case is run here: the generic ops through impl1.step, the others above; every snapshot also holds ALL
@@ -616,6 +664,13 @@ class C14(Hist1Prop):
         """the case as the Lean driver understands it; None = the model cannot express it (oracle only)"""
         if case.get("sparse"):
             return None
+        if case.get("stream") == "template":
+            # the transformed classes, a collection's create, h / inf are not in the model: oracle only.  type(h)(h.binning) goes
+            # to the model as the empty histogram over those bins that it is.
+            if case.get("klass") or any(o["op"] in ("coll_create", "mul0") for o in case["ops"]):
+                return None
+            return {**case, "ops": [({"op": "empty", "out": o["out"], "binning": o["binning"]} if o["op"] == "new_on_binning" else o)
+                                    for o in case["ops"]]}
         if case.get("stream") == "invalid_history":
             # ops run here only (projection, write / read, array arithmetic, transformed classes): oracle only
             if any((o["op"] in self.LOCAL and o["op"] != "lshift") or o.get("klass") for o in case["ops"]):
@@ -644,6 +699,8 @@ class C14(Hist1Prop):
 
     def tags(self, case, io):
         t = super().tags(case, io)
+        if case.get("stream") == "template":
+            t.append("kind:tpl_through_model=" + ("no" if self.model_case(case, io) is None else "yes"))
         if case.get("stream") == "invalid_history":
             t.append("kind:inv_through_model=" + ("no" if self.model_case(case, io) is None else "yes"))
         if case.get("stream") == "refused_mid_history":
@@ -665,7 +722,7 @@ class C14(Hist1Prop):
                 f" (the other readings are NaN)"]
 
     @staticmethod
-    def stats_fails(st, pairs, where, snapshot=None, rtol=None):
+    def stats_fails(st, pairs, where, snapshot=None, rtol=None, xtol=None, extremes=True):
         """the statistics `st` read from a histogram against the raw (value, weight) pairs entered: sums exactly (dyadic
         data; within the relative tolerance `rtol` where the weights are not dyadic), extremes exactly, the derived moments
         within rounding; pairs == INVALID: every number must read as NaN"""
@@ -686,6 +743,13 @@ class C14(Hist1Prop):
         for f, e in (("weight", W), ("sum", S), ("sum2", S2), ("min", min((v for v, _ in pairs), default=None)),
                      ("max", max((v for v, _ in pairs), default=None))):
             got = num(st[f])
+            if f in ("min", "max") and not extremes:
+                continue        # (not pinned on this register: see TEMPLATE_MUL0_EXTREMES)
+            if f in ("min", "max") and xtol is not None and isinstance(got, Fraction) and e is not None:
+                # values the library computes itself from the points entered (radius, azimuth): equal to rounding
+                if abs(got - e) > xtol * max(abs(e), 1):
+                    fails.append(f"stats_{f}_history: {where}: {f} = {float(got)!r}, the data entered give {float(e)!r}")
+                continue
             if rtol is not None and f in ("weight", "sum", "sum2"):
                 if not isinstance(got, Fraction) or abs(got - e) > rtol * abs(e):
                     fails.append(f"stats_{f}_history: {where}: {f} = {st[f]} = {float(got) if isinstance(got, Fraction) else got!r}, the (value, weight) "
@@ -763,8 +827,8 @@ class C14(Hist1Prop):
                 else:
                     c = c if name in ("imul", "mul") else 1 / c
                     data[op.get("out", op["h"])] = [(v, w * c) for v, w in src]
-            elif name == "copy":
-                data[op["out"]] = data.get(op["h"])
+            elif name == "copy":        # (an empty copy holds nothing, whatever its source held)
+                data[op["out"]] = data.get(op["h"]) if op.get("with_freq", True) else []
             elif name == "coll_add":
                 srcs = [data.get(r) for r in list(op["members"]) + [op["h"]]]
                 data[op["out"]] = None if any(x is None for x in srcs) else INVALID if INVALID in srcs else [p for x in srcs for p in x]
@@ -1171,9 +1235,314 @@ class C14(Hist1Prop):
                 break
         return fails[:5]
 
+    # ------------------------------------------------------------------ empty / template histograms obtained from filled ones
+    def gen_template(self, rng):
+        """every way of obtaining an EMPTY (template) histogram from a filled one, then USING it: `h.copy(include_frequencies=
+        False)`, `h * 0`, `h - h`, `type(h)(h.binning)` / `type(h)(h.binning.copy())`, an empty selection `h[k:k]`, `create` of a
+        collection over the bins of `h` -- from a source whose statistics are valid (built from data with / without weights,
+        filled, already rescaled) or invalid (bare frequencies, a subtraction); Histogram1D, RadialHistogram, AzimuthalHistogram.
+        The statistics of the template are read at once (nothing entered: weight 0, sums 0, min / max at their empty values,
+        median / mean() / variance() / std() NaN; after `h - h`: everything NaN), then the template is filled (fill, fill_n),
+        takes histograms of further data in (+=), is added to the ORIGINAL in both orders, is copied (with and without the
+        contents), rescaled: after every step the statistics of every histogram are those of the values entered INTO THAT OBJECT
+        (nothing of the source in an emptied copy), the source keeps its own, and a plain copy reads the same in every
+        number (the median included)."""
+        klass = rng.choice([None, None, None, "RadialHistogram", "AzimuthalHistogram"])
+        if klass is None:
+            pairs = dy_bins(rng)
+        else:
+            top = 6.25 if klass == "AzimuthalHistogram" else 16.0
+            e = [rng.choice([0.0, 0.0, 0.5, 1.0])]
+            for _ in range(rng.randint(2, 5)):
+                nxt = e[-1] + rng.choice([0.5, 1.0, 1.5, 2.0])
+                if nxt > top:
+                    break
+                e.append(nxt)
+            if len(e) < 3:
+                e = [0.0, 1.0, 2.0, 4.0]
+            pairs = [[e[i], e[i + 1]] for i in range(len(e) - 1)]
+        consecutive = all(pairs[i][1] == pairs[i + 1][0] for i in range(len(pairs) - 1))
+        ops, nreg = [], [0]
+
+        def bj():
+            return gen1.binning_json(pairs, form=rng.choice(["pairs", "static_obj"] + (["numpy_obj"] if consecutive else [])))
+
+        def new():
+            r = nreg[0]; nreg[0] += 1
+            return r
+
+        def coord():        # a coordinate strictly inside a bin (dyadic)
+            l, r = rng.choice(pairs)
+            return l + (r - l) * rng.choice([1, 2, 3, 4, 5, 6, 7]) / 8
+
+        def point(c):       # a point of the plane whose radius / azimuth is the coordinate c (radius on an axis: exactly)
+            if klass == "RadialHistogram":
+                return rng.choice([[rs(c), "0"], ["0", rs(c)], [rs(-c), "0"], ["0", rs(-c)], [rs(c * 0.6), rs(c * 0.8)]])
+            rho = rng.choice([1.0, 2.0, 0.5])
+            return [rs(rho * math.cos(c)), rs(rho * math.sin(c))]
+
+        def wts(n, p_none=0.5):
+            return None if rng.random() < p_none else [rs(rng.choice([1, 2, 0.5, 0.25, 3])) for _ in range(n)]
+
+        def from_data(n=None, weights=True):
+            n = n or rng.choice([1, 2, 3, 5])
+            r = new()
+            ws = wts(n, 0.4) if weights else None
+            if klass is None:
+                ops.append({"op": "construct", "out": r, "binning": bj(), "data": gen1.enc_vals([coord() for _ in range(n)]), "weights": ws,
+                            "wkind": "float64" if ws else None})
+            else:
+                ops.append({"op": "construct_t", "klass": klass, "out": r, "binning": bj(), "ps": [point(coord()) for _ in range(n)],
+                            "weights": ws, "wkind": "float64" if ws else None})
+            return r
+
+        def fill_op(h):
+            wt = rng.choice([1, 1, 1, 2, 0.5, 3])
+            extra = {"w": rs(wt), "wk": "pyint" if isinstance(wt, int) else "pyfloat", "default_w": wt == 1 and rng.random() < 0.6}
+            c = coord()
+            return {"op": "fill", "h": h, "v": rs(c), **extra} if klass is None else {"op": "fill_pt", "h": h, "p": point(c), **extra}
+
+        def fill_n_op(h, m=None):
+            m = rng.choice([0, 1, 2, 4]) if m is None else m
+            cs = [coord() for _ in range(m)]
+            if klass is None:
+                return {"op": "fill_n", "h": h, "vs": gen1.enc_vals(cs), "ws": wts(m), "wkind": "float64"}
+            return {"op": "fill_n_pts", "h": h, "ps": [point(c) for c in cs], "ws": wts(m), "wkind": "float64"}
+
+        # --- the source: a filled histogram, statistics valid (mostly) or invalid
+        source = rng.choice(["data", "data", "data", "data_w", "data_w", "filled", "filled", "bare", "sub"])
+        if source in ("data", "data_w"):
+            src = from_data(rng.choice([1, 2, 3, 5, 8]), weights=source == "data_w")
+        elif source == "filled":
+            src = new()
+            ops.append({"op": "empty", "out": src, "binning": bj()} if klass is None else {"op": "empty_t", "klass": klass, "out": src, "binning": bj()})
+            ops.append(fill_n_op(src, rng.choice([1, 2, 4])))
+            ops.append(fill_op(src))
+        elif source == "bare":
+            src = new()
+            ops.append({"op": "of_arrays", "out": src, "binning": bj(), "freq": [rs(rng.randint(0, 5)) for _ in pairs], "err2": None,
+                        "under": "0", "over": "0", "inner": "0", "dtype": rng.choice(["int64", "float64"]), **({"klass": klass} if klass else {})})
+        else:
+            a = from_data(rng.choice([3, 5]), weights=False)
+            first = ops[-1]
+            b_ = new()      # the same bins, one of the same values: nothing goes negative
+            ops.append({**first, "out": b_, **({"data": first["data"][:1]} if klass is None else {"ps": first["ps"][:1]})})
+            src = new()
+            ops.append({"op": "sub", "a": a, "b": b_, "out": src})
+        if rng.random() < 0.3:      # something happened to the source before the template is taken
+            if rng.random() < 0.5:
+                ops.append(fill_op(src))
+            else:
+                c = rng.choice([2, 4, 0.5])
+                ops.append({"op": "imul", "h": src, "c": rs(c), "k": "pyint" if isinstance(c, int) else "pyfloat"})
+
+        # --- the template
+        ways = [w for w in TEMPLATE_WAYS if not (w == "coll_create" and klass is not None)]
+        way = rng.choice(ways)
+        t = new()
+        if way == "copy_empty":
+            ops.append({"op": "copy", "h": src, "out": t, "with_freq": False})
+        elif way == "mul0":
+            form = rng.choice(["mul", "mul", "rmul", "div_inf"]) if klass is None else rng.choice(["mul", "rmul"])
+            if form == "div_inf":
+                ops.append({"op": "mul0", "h": src, "out": t, "form": "div_inf"})
+            else:
+                ops.append({"op": "mul", "h": src, "c": "0", "k": rng.choice(["pyint", "pyfloat", "int64", "float64"]), "out": t,
+                            **({"reflected": True} if form == "rmul" else {})})
+        elif way == "sub_self":
+            ops.append({"op": "sub", "a": src, "b": src, "out": t})
+        elif way == "new_on_binning":
+            ops.append({"op": "new_on_binning", "h": src, "out": t, "copy": rng.random() < 0.5, "binning": bj()})
+        elif way == "slice_empty":
+            k0 = rng.randint(0, len(pairs))
+            ops.append({"op": "slice", "h": src, "start": k0, "stop": k0, "out": t, "maybe_refused": True})
+        else:
+            m = rng.choice([0, 1, 3, 5])
+            ops.append({"op": "coll_create", "h": src, "out": t, "vs": gen1.enc_vals([coord() for _ in range(m)]), "ws": wts(m, 0.6),
+                        "wkind": "float64"})
+
+        # --- the template is used
+        cur = t
+        if way == "slice_empty":        # no bins: nothing can be entered; copies of it
+            ops.append({"op": "copy", "h": cur, "out": new()})
+            ops.append({"op": "copy", "h": cur, "out": new(), "with_freq": False})
+        else:
+            kinds = ["fill", "fill", "fill", "fill_n", "fill_n", "iadd_data", "add_orig", "radd_orig", "iadd_orig", "copy", "copy_empty", "scale"]
+            for _ in range(rng.randint(2, 5)):
+                kind = rng.choice(kinds)
+                if kind == "fill":
+                    ops.append(fill_op(cur))
+                elif kind == "fill_n":
+                    ops.append(fill_n_op(cur))
+                elif kind == "iadd_data":
+                    ops.append({"op": "iadd", "h": cur, "o": from_data()})
+                elif kind in ("add_orig", "radd_orig"):
+                    out = new()
+                    ops.append({"op": "add", "a": cur if kind == "add_orig" else src, "b": src if kind == "add_orig" else cur, "out": out})
+                    if rng.random() < 0.4:
+                        cur = out
+                elif kind == "iadd_orig":
+                    ops.append({"op": "iadd", "h": cur, "o": src})
+                elif kind in ("copy", "copy_empty"):
+                    out = new()
+                    ops.append({"op": "copy", "h": cur, "out": out, **({"with_freq": False} if kind == "copy_empty" else {})})
+                    if rng.random() < 0.6:
+                        cur = out
+                else:
+                    c = rng.choice([2, 4, 0.5, 0.25])
+                    ops.append({"op": rng.choice(["imul", "idiv"]), "h": cur, "c": rs(c), "k": "pyint" if isinstance(c, int) else "pyfloat"})
+            ops.append(fill_op(cur))
+            if rng.random() < 0.5:      # the template of the template
+                out = new()
+                ops.append({"op": "copy", "h": cur, "out": out, "with_freq": False})
+                ops.append(fill_op(out))
+        c = coord()
+        return {"kind": "hist1", "ops": ops, "stream": "template", "tolerance": True, "klass": klass, "template": t, "source": src,
+                "probe": {"v": rs(c)} if klass is None else {"p": point(c)},
+                "tags": ["stream:template", "kind:tpl_way=" + way, "kind:tpl_source=" + source, "kind:tpl_class=" + (klass or "Histogram1D")]}
+
+    @staticmethod
+    def _coord_of(klass, p):
+        """the coordinate a transformed 1-D class enters for the point p (numpy's own functions, as the class documents)"""
+        x, y = (float(Fraction(q)) for q in p)
+        with np.errstate(all="ignore"):
+            v = np.hypot(y, x) if klass == "RadialHistogram" else np.arctan2(y, x) % (2 * np.pi)
+        return Fraction(float(v))
+
+    def oracle_template(self, case, io):
+        """per register the raw (value, weight) pairs entered INTO THAT OBJECT ([] for every empty histogram, however it was
+        obtained), INVALID after a subtraction / from bare frequencies, EITHER for an empty selection; compared after every step"""
+        klass = case.get("klass")
+        rtol = xtol = None if klass is None else Fraction(1, 10**12)
+        data, loose, origin, med, fails = {}, set(), {}, {}, []
+        W1 = lambda ws, n: [Fraction(w) for w in ws] if ws is not None else [Fraction(1)] * n
+
+        def both(x, y):
+            if x is None or y is None or EITHER in (x, y):
+                return None
+            return INVALID if INVALID in (x, y) else x + y
+
+        def entered(h, new_pairs):
+            if isinstance(data.get(h), list):
+                data[h] = data[h] + new_pairs
+            med.pop(h, None)
+
+        for k, (op, o) in enumerate(zip(case["ops"], io["outs"])):
+            name, ret = op["op"], o["ret"]
+            if ret == "REFUSED":
+                if op.get("maybe_refused"):
+                    break       # (an empty selection the library does not offer: nothing to follow)
+                return [f"refused_valid: step {k} ({name}) was refused: " + "; ".join(io["log"][-1:])]
+            out = op.get("out")
+            if name == "construct":
+                vs = [Fraction(v) for v in op["data"]]
+                data[out] = list(zip(vs, W1(op["weights"], len(vs))))
+                if op["weights"] is None and vs:
+                    sv, m = sorted(vs), len(vs)
+                    med[out] = sv[m // 2] if m % 2 else (sv[m // 2 - 1] + sv[m // 2]) / 2
+            elif name == "construct_t":
+                vs = [self._coord_of(klass, p) for p in op["ps"]]
+                data[out] = list(zip(vs, W1(op["weights"], len(vs))))
+            elif name in ("empty", "empty_t", "new_on_binning"):
+                data[out] = []; med[out] = "nan"
+                origin[out] = "a new histogram over the bins of register %s" % op["h"] if name == "new_on_binning" else "a new histogram"
+            elif name == "coll_create":
+                data[out] = list(zip([Fraction(v) for v in op["vs"]], W1(op["ws"], len(op["vs"]))))
+                origin[out] = "HistogramCollection(register %s).create(...)" % op["h"]
+            elif name == "of_arrays":
+                data[out] = INVALID
+            elif name == "fill":
+                entered(op["h"], [(Fraction(op["v"]), Fraction(op["w"]))])
+            elif name == "fill_pt":
+                entered(op["h"], [(self._coord_of(klass, op["p"]), Fraction(op["w"]))])
+            elif name == "fill_n":
+                entered(op["h"], list(zip([Fraction(v) for v in op["vs"]], W1(op["ws"], len(op["vs"])))))
+            elif name == "fill_n_pts":
+                entered(op["h"], list(zip([self._coord_of(klass, p) for p in op["ps"]], W1(op["ws"], len(op["ps"])))))
+            elif name in ("add", "iadd"):
+                x, y = (op["a"], op["b"]) if name == "add" else (op["h"], op["o"])
+                tgt = out if name == "add" else x
+                data[tgt] = both(data.get(x), data.get(y))
+                if x in loose or y in loose:
+                    loose.add(tgt)
+                med.pop(tgt, None)
+            elif name == "sub":
+                data[out] = INVALID
+                origin[out] = "register %s - register %s" % (op["a"], op["b"])
+            elif name in ("mul", "imul", "idiv", "mul0"):
+                tgt = out if out is not None else op["h"]
+                srcd = data.get(op["h"])
+                c = Fraction(0) if name == "mul0" else Fraction(op["c"]) if name != "idiv" else 1 / Fraction(op["c"])
+                if srcd is None or srcd == EITHER or c < 0:
+                    data[tgt] = None
+                elif srcd == INVALID:
+                    data[tgt] = INVALID
+                elif c == 0:        # every weight times 0: the sums are 0; whatever is entered later counts in full
+                    data[tgt] = []
+                    origin[tgt] = "register %s times 0" % op["h"]
+                    if not TEMPLATE_MUL0_EXTREMES:
+                        loose.add(tgt)
+                else:
+                    data[tgt] = [(v, w * c) for v, w in srcd]
+                    if op["h"] in loose:
+                        loose.add(tgt)
+                med.pop(tgt, None)
+            elif name == "copy":
+                if op.get("with_freq", True):
+                    data[out] = data.get(op["h"])
+                    if op["h"] in loose:
+                        loose.add(out)
+                    if op["h"] in med:
+                        med[out] = med[op["h"]]
+                    # a plain copy reads the same as its source in EVERY number (the median included)
+                    ra, rb = o["regs"][op["h"]], o["regs"][out]
+                    if ra is not None and rb is not None and ra["_all"] != rb["_all"]:
+                        diff_ = [f"{f}: {ra['_all'][f]} -> {rb['_all'][f]}" for f in READINGS if ra["_all"][f] != rb["_all"][f]]
+                        fails.append(f"copy_differs: step {k}: the statistics of the copy (register {out}) are not those of its source "
+                                     f"(register {op['h']}): " + ", ".join(diff_))
+                else:
+                    data[out] = []; med[out] = "nan"
+                    origin[out] = "copy(include_frequencies=False) of register %s" % op["h"]
+            elif name == "slice":
+                data[out] = EITHER
+                origin[out] = "the empty selection [%s:%s] of register %s" % (op["start"], op["stop"], op["h"])
+            else:
+                data[op.get("out", op.get("h"))] = None
+            for r, pairs in data.items():
+                sn = o["regs"][r] if r < len(o["regs"]) else None
+                if pairs is None or sn is None:
+                    continue
+                what = f"{sn.get('_class', '')} register {r}" + (f" ({origin[r]})" if r in origin else "") + f" after step {k} ({name})"
+                allr = sn["_all"]
+                if pairs == EITHER:
+                    nums = numbers_of(sn)
+                    if nums and not (allr["weight"] == "0" and allr["sum"] == "0" and allr["sum2"] == "0" and allr["mean()"] == "nan"
+                                     and allr["variance()"] == "nan"):
+                        fails.append(f"empty_selection_numbers: {what}: neither invalid nor empty: " + ", ".join(nums))
+                    continue
+                f_ = self.stats_fails(sn["stats"], pairs, what, sn, rtol, xtol, extremes=r not in loose)
+                if f_ and pairs == [] and r in origin:
+                    f_ = ["empty_not_empty: nothing was entered into this histogram: " + x for x in f_]
+                fails += f_
+                if not f_ and pairs != INVALID and r in med:
+                    exp = med[r]
+                    got = allr["median"]
+                    if (got != "nan") if exp == "nan" else (got in ("nan", "inf", "-inf") or Fraction(got) != exp):
+                        fails.append(f"median_history: {what}: median = {got}, " + ("nothing was entered into this histogram (NaN expected)"
+                                     if exp == "nan" else f"the median of the data it was constructed from is {exp}"))
+                if not f_ and pairs == [] and r not in loose:
+                    bad = [f"{f} = {allr[f]}" for f in ("mean()", "variance()", "std()") if allr[f] != "nan"]
+                    if bad:
+                        fails.append(f"empty_moments: {what}: nothing was entered, but " + ", ".join(bad))
+            if fails:
+                break
+        return fails[:5]
+
     def gen_case(self, rng, k, tier):
         if ENABLE_INVALID_HISTORY and k % 12 == 5:
             return self.gen_invalid_history(rng)
+        if ENABLE_TEMPLATE and k % 24 in (8, 23):
+            return self.gen_template(rng)
         if ENABLE_NARROW_CONTENT and k % 24 == 11:
             if k % 72 == 35:        # thousands of values: float16, float32, int16 in turn
                 return self.gen_narrow_content(rng, True, NARROW_LARGE_DTYPES[(k // 72) % len(NARROW_LARGE_DTYPES)])
@@ -1269,7 +1638,7 @@ class C14(Hist1Prop):
             if src["large"] and n <= 40:
                 yield self.build_narrow({**copy.deepcopy(src), "large": False, "chunk": min(src["chunk"], 5)})
             return
-        if case.get("stream") == "invalid_history":
+        if case.get("stream") in ("invalid_history", "template"):
             # drop a step (every register used later must still have been created)
             def refs(o):
                 return [o[x] for x in ("h", "a", "b", "o") if x in o]
@@ -1344,6 +1713,8 @@ class C14(Hist1Prop):
             return self.oracle_narrow(case, io)
         if case.get("stream") == "invalid_history":
             return self.oracle_invalid_history(case, io)
+        if case.get("stream") == "template":
+            return self.oracle_template(case, io)
         if case.get("mixed"):
             return self.oracle_mixed(case, io)
         outs = io["outs"]
@@ -1406,6 +1777,9 @@ class C14(Hist1Prop):
             med = s[n // 2] if n % 2 else (s[n // 2 - 1] + s[n // 2]) / 2
             if st0["median"] is None or Fraction(st0["median"]) != med:
                 fails.append(f"median: median after unweighted construction is {st0['median']}, data median is {med}")
+            st6 = regs[6]["stats"]
+            if st6["valid"] and (st6["median"] is None or Fraction(st6["median"]) != med):
+                fails.append(f"median_copy: median of the copy is {st6['median']}, data median (and median of the source) is {med}")
         if src["tail"] != "none" and len(regs) > 8 and regs[8] is not None:
             # from the operation that cannot maintain the statistics on, after every step (the fills that follow included)
             for k, (op, o) in enumerate(zip(case["ops"], outs)):
@@ -1425,7 +1799,7 @@ class C14(Hist1Prop):
             # the same data and weights with the other content types (and the float64 / default ones)
             return [self.build_narrow({**copy.deepcopy(case["src"]), "dtype": dt}) for dt in ("float16", "float32", "int16", "float64")
                     if dt != case["src"]["dtype"] and not (dt == "int16" and case["src"]["wk"] == "float64")]
-        if case.get("stream") == "invalid_history":
+        if case.get("stream") in ("invalid_history", "template"):
             # the history cut after each step, the caller then filling every histogram that exists (single value)
             out = []
             pr = case.get("probe") or {}
@@ -1456,6 +1830,14 @@ class C14(Hist1Prop):
             return bool(ks) and any(k < ks[0] for k in enters) and any(k > ks[0] for k in enters)
         if case.get("mixed"):
             return sum(1 for o in case["ops"] if o["op"] in ("fill", "fill_n", "construct")) >= 2
+        if case.get("stream") == "template":
+            # the template was really obtained, from a source that held something, and something was entered into it afterwards
+            t = case["template"]
+            kt = next((k for k, op in enumerate(case["ops"]) if op.get("out") == t), None)
+            if kt is None or io["outs"][kt]["ret"] == "REFUSED" or kt == 0:
+                return False
+            return case["ops"][kt]["op"] == "slice" or any(
+                op["op"] in ("fill", "fill_pt", "fill_n", "fill_n_pts", "iadd", "add") for op in case["ops"][kt + 1:])
         if case.get("stream") == "invalid_history":
             # something was really entered into / added to a histogram without statistics
             return any(op["op"] in ("fill", "fill_pt", "lshift", "fill_n", "fill_n_pts", "add", "iadd") and o["ret"] != "REFUSED"
